@@ -308,16 +308,21 @@ Definition all_tuples (shape : list nat) : list tuple := product (map (fun n => 
 Definition assignment_matrix (dims : list variable) (default : option Z) : list (tuple * option Z) :=
   map (fun t => (t, default)) (all_tuples (shape_of dims)).
 
-(* tokens of one assignment -> matrix position (to_domain_value on every dimension) *)
-Fixpoint token_indices (dims : list variable) (toks : list string) : result tuple :=
+(* tokens of one assignment -> matrix position (to_domain_value on every dimension).
+   A wrong number of tokens is outside the model whatever the tokens are (the real code then
+   indexes the nested lists with the wrong domains): decided before any token is looked up. *)
+Fixpoint token_indices_rec (dims : list variable) (toks : list string) : result tuple :=
   match dims, toks with
   | [], [] => Ok []
   | v :: dr, tk :: tr =>
       do i <- of_opt EValue (to_domain_value (v_dom v) tk);
-      do r <- token_indices dr tr;
+      do r <- token_indices_rec dr tr;
       Ok (i :: r)
-  | _, _ => Err ENotModelled      (* wrong number of tokens: not modelled *)
+  | _, _ => Err ENotModelled
   end.
+Definition token_indices (dims : list variable) (toks : list string) : result tuple :=
+  if Nat.eqb (List.length dims) (List.length toks) then token_indices_rec dims toks
+  else Err ENotModelled.
 
 Definition mat_set (t : tuple) (v : Z) (m : list (tuple * option Z)) : list (tuple * option Z) :=
   dict_set tuple_eqb t (Some v) m.
